@@ -161,6 +161,9 @@ type Listener struct {
 	SynAckDelayUs int64  `json:"synAckDelayUs,omitempty"`
 	OptLayout     string `json:"optLayout,omitempty"`   // order of the SYN-ACK's options: ""(linux)|bsd|win|tsfirst|sacklast
 	SynAckDupUs   int64  `json:"synAckDupUs,omitempty"` // > 0: the SYN-ACK is seen a second time this much later (retransmission)
+	// FinAfterUs > 0: the target closes its side that long after its SYN-ACK: a FIN|ACK without SACK
+	// blocks arrives while probes are out (it keeps answering probes with duplicate ACKs afterwards)
+	FinAfterUs int64 `json:"finAfterUs,omitempty"`
 	TruncTS       bool   `json:"truncTS,omitempty"`
 }
 
